@@ -136,13 +136,13 @@ xresp0_pipe_init(void *arg, nni_pipe *npipe, void *s)
 	nni_aio_init(&p->aio_getq, xresp0_getq_cb, p);
 	nni_aio_init(&p->aio_send, xresp0_send_cb, p);
 
-	if ((rv = nni_msgq_init(&p->sendq, 2)) != 0) {
-		xresp0_pipe_fini(p);
-		return (rv);
-	}
-
 	p->npipe = npipe;
 	p->psock = s;
+
+	if ((rv = nni_msgq_init(&p->sendq, 2)) != 0) {
+		// pipe_create closes, stops and finalizes the pipe
+		return (rv);
+	}
 	return (0);
 }
 
@@ -186,7 +186,9 @@ xresp0_pipe_close(void *arg)
 	nni_aio_close(&p->aio_send);
 	nni_aio_close(&p->aio_recv);
 
-	nni_msgq_close(p->sendq);
+	if (p->sendq != NULL) { // NULL if xresp0_pipe_init failed
+		nni_msgq_close(p->sendq);
+	}
 
 	nni_mtx_lock(&s->mtx);
 	nni_id_remove(&s->pipes, p->id);
